@@ -299,7 +299,14 @@ def run(chk: Check, model):
                         want_tr = T.mk_ite(T.eq(so0, T.const(-1), numeric=True), T.const(-1), xs)
                         chk.add("C12.mask", "ts_recv recorded (-1 if never sent)", ed["ts_recv"] == want_tr, f"Edge.ts_recv = {T.show(ed['ts_recv'])[:200]}", chk.loc(f_ep, e.node))
                 else:
-                    chk.unknown("C12.mask", "assignment scan", "expected one scan over the arrival times", chk.loc(f_ep))
+                    ss = [x for x in sub if x.kind == "call" and x.name.rsplit(".", 1)[-1] == "searchsorted" and x.func == f_ep.qualname]
+                    if ss and not sc2:
+                        # a binary search assumes the receiver's start times are sorted; the start times of a given (stacked, padded) graph end in
+                        # -1 entries, so the search lands in the padding: the assignment must walk the start times in order
+                        chk.violation("C12.mask", "arrival assigned by walking the receiver's start times in order", "the receiver step of an arrival is found with searchsorted over "
+                                      "vertices[input_name].ts_start, which is not sorted for padded episodes of a given graph", chk.loc(f_ep, ss[0].node))
+                    else:
+                        chk.unknown("C12.mask", "assignment scan", "expected one scan over the arrival times", chk.loc(f_ep))
     # communication delay table keyed by (sender, receiver) — and every connection of every node is covered
     st, comps = _conn_table(r, fi)
     ok = len(st) in (1, 2) and len(comps) == 2 and all(e.key == st[0].key for e in st) and st[0].key[0] == "tuple"
